@@ -14,6 +14,7 @@ class Sched:
         self.schedule = list(schedule)
         self.kdir = os.path.join(os.path.realpath(repo), "kingdon") + os.sep
         self.pos = 0
+        self.gap = None
         self.sems = {}
         self.alive = []
         self.line_files = line_files
@@ -23,11 +24,22 @@ class Sched:
         self.results = {}
 
     def choose(self):
-        if self.pos < len(self.schedule):
-            c = self.schedule[self.pos]
+        """Schedule entries are either ints (0 = stay, n = switch to the n-th other thread; one entry per yield point) or
+        [gap, target] pairs: let `gap` yield points pass, then switch to the target-th other thread."""
+        if self.pos >= len(self.schedule):
+            return 0      # schedule exhausted: never switch voluntarily
+        e = self.schedule[self.pos]
+        if isinstance(e, (list, tuple)):
+            if self.gap is None:
+                self.gap = e[0]
+            if self.gap > 0:
+                self.gap -= 1
+                return 0
+            self.gap = None
             self.pos += 1
-            return c
-        return 0          # schedule exhausted: never switch voluntarily
+            return e[1]
+        self.pos += 1
+        return e
 
     def yield_point(self, tid):
         self.points += 1
